@@ -29,6 +29,10 @@ def opOf (j : Json) : R LoopOp := do
   | .arr #[.str "sub", c] => do pure (.sub (← asNat c))
   | .arr #[.str "unsub", c] => do pure (.unsub (← asNat c))
   | .arr #[.str "flush", c] => do pure (.flush (← asNat c))
+  | .arr #[.str "fire", c] => do pure (.fire (← asNat c))
+  | .arr #[.str "write", c, i, v] => do
+    let o ← objOf (Json.arr #[i, v])
+    pure (.write (← asNat c) o)
   | _ => throw s!"bad loop op {j.compress}"
 
 def upOf (j : Json) : R Update := do
@@ -111,6 +115,8 @@ def handle (j : Json) : R Json := do
     ("queue", Json.arr (fin.queue.map (fun o => Json.num o.val)).toArray),
     ("subs", Json.arr (fin.subs.map (fun (c : Nat) => Json.num c)).toArray),
     ("pending", Json.arr (conns.map fun c => jopt (fun o => Json.num o.val) (fin.pending c)).toArray),
+    ("timer", Json.arr (conns.map fun c => Json.bool (fin.timer c)).toArray),
+    ("knows", Json.arr (conns.map fun c => Json.num (fin.knows c).val).toArray),
     ("delivered", Json.arr (conns.map fun c =>
         Json.arr ((fin.delivered c).map (fun o => Json.num o.val)).toArray).toArray),
     ("done", Json.bool (fin.lpc == .idle && fin.lops.isEmpty && fin.wpc == .idle && fin.wups.isEmpty))
